@@ -1,8 +1,11 @@
 import MocModel.Drv.C02
+import MocModel.Drv.Mw
 open Moc.Drv
 
 def handlers : List (String × Handler) := [
-  ("C02", C02.handler)
+  ("C02", C02.handler),
+  ("C17", MwD.handler),
+  ("C18", MwD.handler)
 ]
 
 def main (args : List String) : IO UInt32 := do
